@@ -31,6 +31,8 @@ type w2Case struct {
 	// filler literals (harness/opsfit_gen.go: one far match with all adaptive contexts trained against it,
 	// placed where the compressed chunk is nearly full)
 	Opsfit int `json:"opsfit_filler,omitempty"`
+	// Zero: pass the zero Writer2Config (the fields above then hold the documented defaults)
+	Zero bool `json:"zero_config,omitempty"`
 }
 
 func (c w2Case) data(op w2Op) []byte {
@@ -42,6 +44,9 @@ func (c w2Case) data(op w2Op) []byte {
 }
 
 func (c w2Case) config() lzma.Writer2Config {
+	if c.Zero {
+		return lzma.Writer2Config{}
+	}
 	return lzma.Writer2Config{Properties: &lzma.Properties{LC: c.LC, LP: c.LP, PB: c.PB}, DictCap: c.DictCap, BufSize: c.BufSize, Matcher: lzma.MatchAlgorithm(c.Matcher)}
 }
 
@@ -277,6 +282,13 @@ func checkC08(a *checkArgs, r *Result) error {
 	for _, f := range fillers {
 		cases = append(cases, w2Case{Op: "writer2-history", Name: fmt.Sprintf("corpus/opsfit filler=%d", f), LC: 3, PB: 2, DictCap: 8 << 20, BufSize: 4096,
 			Opsfit: f, Hist: []w2Op{{"write", "@opsfit"}, {"close", ""}}})
+	}
+	// the zero configuration: every field defaulted by fill(); the model runs with the documented defaults
+	for i := 0; i < 6; i++ {
+		c := w2Case{Op: "writer2-history", LC: 3, PB: 2, DictCap: 8 << 20, BufSize: 4096, Zero: true}
+		c.Hist, c.Name = genHistory(rng, 0, i < 2)
+		c.Name = "zero-config/" + c.Name
+		cases = append(cases, c)
 	}
 	for i := 0; i < 4; i++ {
 		d := genBarely(rng, 140000+rng.Intn(60000))
